@@ -35,6 +35,29 @@ ARTICULATIONS = [
     "strong-accent",
     "tenuto",
     "unstress",
+    "soft-accent",
+]
+
+# the order in which the MusicXML DTD lists them (and load_musicxml returns
+# them): written in this order whatever the order of a note's list, so that
+# saving a loaded file reproduces it
+ARTICULATIONS_ORDER = [
+    "accent",
+    "strong-accent",
+    "staccato",
+    "tenuto",
+    "detached-legato",
+    "staccatissimo",
+    "spiccato",
+    "scoop",
+    "plop",
+    "doit",
+    "falloff",
+    "breath-mark",
+    "caesura",
+    "stress",
+    "unstress",
+    "soft-accent",
 ]
 
 
@@ -151,9 +174,11 @@ def make_note_el(note, dur, voice, counter, n_of_staves):
 
     if note.articulations:
         articulations = []
-        for articulation in note.articulations:
-            if articulation in ARTICULATIONS:
-                articulations.append(etree.Element(articulation))
+        for articulation in sorted(
+            (a for a in note.articulations if a in ARTICULATIONS),
+            key=ARTICULATIONS_ORDER.index,
+        ):
+            articulations.append(etree.Element(articulation))
         if articulations:
             articulations_e = etree.Element("articulations")
             articulations_e.extend(articulations)
